@@ -45,6 +45,16 @@ class Violation(Exception):
         self.case = case      # set by stateful machines: the history that failed
 
 
+class Abort(BaseException):
+    """Stops a Hypothesis run at once, without shrinking (used for confirmed hangs, where every
+    further execution of the case would cost minutes).  Carries the Violation and the case."""
+
+    def __init__(self, violation, case):
+        super().__init__(str(violation))
+        self.violation = violation
+        self.case = case
+
+
 class HarnessError(Exception):
     """The machinery itself is broken (never reported as a violation)."""
 
@@ -252,6 +262,12 @@ def hyp_run(ctx, strategy, check, max_examples, salt=0, shrink=True, step_count=
 
     try:
         _t()
+    except Abort as ab:
+        v = ab.violation
+        if not ctx.is_suppressed(v.key):
+            ctx.fail(v.key, v.msg, ab.case, v.detail)
+        else:
+            ctx.suppressed_hits[v.key] += 1
     except Violation:
         v = last['v']
         ctx.fail(v.key, v.msg, last['case'], v.detail)
